@@ -673,6 +673,20 @@ example : convert ⟨false, []⟩ (textDoc [.elem qP [] [.text [97], .elem qS []
 def moinStyles : Node := .elem [] [] []
 def moinContent (blocks : List Node) : Node := .elem [] [] [.elem Moin.tBody [] [.elem qText [] blocks]]
 
+/-- 2b96491 (was KF-C18-10): an indented content.xml — white space between office:body, office:text, paragraphs, list items,
+    table rows and cells — is converted like the unindented one (in general: `Moin.topStr_elems`, `itemsStr_elems`,
+    `subitemsStr_elems`, `rowsStr_elems`, `cellsStr_elems`: the loops only see the element children) -/
+example :
+    Moin.toString moinStyles (.elem [] [] [.text [10], .elem Moin.tBody [] [.text [10, 32], .elem qText [] [.text [10, 32, 32],
+        .elem qP [] [.text [90]], .text [10, 32, 32],
+        .elem qList [] [.text [10], .elem qListItem [] [.text [10], .elem qP [] [.text [89]], .text [10]], .text [10]], .text [10],
+        .elem qTable [] [.text [10], .elem qRow [] [.text [10], .elem qCell [] [.elem qP [] [.text [88]]], .text [10]], .text [10]],
+        .text [10, 32]], .text [10]]]) =
+    Moin.toString moinStyles (moinContent [.elem qP [] [.text [90]],
+        .elem qList [] [.elem qListItem [] [.elem qP [] [.text [89]]]],
+        .elem qTable [] [.elem qRow [] [.elem qCell [] [.elem qP [] [.text [88]]]]]]) := by
+  rfl
+
 /-- 41ddec8: both paragraphs of a foot note are converted -/
 example : (Moin.toString moinStyles (moinContent [.elem qP [] [.text [97], .elem qNote []
     [.elem qCitation [] [.text [49]], .elem qNoteBody [] [.elem qP [] [.text [98]], .elem qP [] [.text [99]]]]]])).toOption.map
